@@ -33,12 +33,18 @@ import (
 // storeMmemoizer implements the memoization.
 type storeMemoizer struct {
 	s storage.Store
+
+	// One memoizer per graph: every handle of a graph shares it, so that an
+	// update through one handle also resets what the other handles memoized.
+	mu     sync.Mutex
+	graphs map[string]*graphMemoizer
 }
 
 // New returns a new memoized driver.
 func New(s storage.Store) storage.Store {
 	return &storeMemoizer{
-		s: s,
+		s:      s,
+		graphs: make(map[string]*graphMemoizer),
 	}
 }
 
@@ -52,13 +58,7 @@ func (s *storeMemoizer) Version(ctx context.Context) string {
 	return s.s.Version(ctx)
 }
 
-// NewGraph creates a new graph. Creating an already existing graph
-// should return an error.
-func (s *storeMemoizer) NewGraph(ctx context.Context, id string) (storage.Graph, error) {
-	g, err := s.s.NewGraph(ctx, id)
-	if err != nil {
-		return nil, err
-	}
+func newGraphMemoizer(g storage.Graph) *graphMemoizer {
 	return &graphMemoizer{
 		g:    g,
 		memN: make(map[string][]*node.Node),
@@ -66,7 +66,21 @@ func (s *storeMemoizer) NewGraph(ctx context.Context, id string) (storage.Graph,
 		memO: make(map[string][]*triple.Object),
 		memT: make(map[string][]*triple.Triple),
 		memE: make(map[string]bool),
-	}, nil
+	}
+}
+
+// NewGraph creates a new graph. Creating an already existing graph
+// should return an error.
+func (s *storeMemoizer) NewGraph(ctx context.Context, id string) (storage.Graph, error) {
+	g, err := s.s.NewGraph(ctx, id)
+	if err != nil {
+		return nil, err
+	}
+	m := newGraphMemoizer(g)
+	s.mu.Lock()
+	s.graphs[id] = m
+	s.mu.Unlock()
+	return m, nil
 }
 
 // Graph returns an existing graph if available. Getting a non existing
@@ -76,19 +90,22 @@ func (s *storeMemoizer) Graph(ctx context.Context, id string) (storage.Graph, er
 	if err != nil {
 		return nil, err
 	}
-	return &graphMemoizer{
-		g:    g,
-		memN: make(map[string][]*node.Node),
-		memP: make(map[string][]*predicate.Predicate),
-		memO: make(map[string][]*triple.Object),
-		memT: make(map[string][]*triple.Triple),
-		memE: make(map[string]bool),
-	}, nil
+	s.mu.Lock()
+	defer s.mu.Unlock()
+	if m, ok := s.graphs[id]; ok {
+		return m, nil
+	}
+	m := newGraphMemoizer(g)
+	s.graphs[id] = m
+	return m, nil
 }
 
 // DeleteGraph deletes an existing graph. Deleting a non existing graph
 // should return an error.
 func (s *storeMemoizer) DeleteGraph(ctx context.Context, id string) error {
+	s.mu.Lock()
+	delete(s.graphs, id)
+	s.mu.Unlock()
 	return s.s.DeleteGraph(ctx, id)
 }
 
